@@ -254,7 +254,7 @@ class C19(common.Check):
     components = {"client": "real (public API, KeyCache, _encrypt_blob, cek_generate, new_kek)", "entropy": "simulated (os.urandom and AESGCM.generate_key seams, ledger)",
                   "clock": "simulated, frozen", "DC": "model (RefDC)", "security context": "stub (StubCtx)", "blob opener": "model (ref.cms/ref.gkdi)"}
     assumptions = ["the simulated entropy source never repeats a draw; real-world collision probability of fresh 96/256-bit values is outside the claim"]
-    required_fired = ("mode_pub", "mode_nonce", "provenance_ok", "forked_histories", "alternating_positions", "thread_histories", "thread_overlap", "app_reseed_histories", "odd_length_field_histories", "reprotect_histories", "entropy_device_fault_histories", "entropy_source_failure_histories", "histories_with_assertions_compiled_out", "task_chain_histories", "long_runs", "long_run_key_identifier_nonces", "plaintext_over_1MiB")
+    required_fired = ("mode_pub", "mode_nonce", "provenance_ok", "forked_histories", "alternating_positions", "thread_histories", "thread_overlap", "app_reseed_histories", "odd_length_field_histories", "reprotect_histories", "entropy_device_fault_histories", "entropy_source_failure_histories", "histories_with_assertions_compiled_out", "task_chain_histories", "long_runs", "long_run_key_identifier_nonces", "plaintext_over_1MiB", "scalar_draws_above_group_order")
 
     def cases(self, tier, seed):
         rng = prng.stream(seed, "C19")
@@ -262,6 +262,16 @@ class C19(common.Check):
         out = [gen_plan(rng, i, tier) for i in range(n)]
         # the same kinds of histories in an interpreter started with assertions compiled out (python -O / PYTHONOPTIMIZE=1, common in
         # containers and frozen applications): one child interpreter per case
+        # public-key mode under elliptic-curve root keys with an entropy source that hands out LARGE (but distinct) values where the
+        # ephemeral scalar is drawn: above the group order they cannot be used as they are - whatever the library does then (fail, draw
+        # again), two protects must not end up with the same ephemeral key
+        for k, curve in enumerate(("ECDH_P256", "ECDH_P384", "ECDH_P256", "ECDH_P384")):
+            nb = 32 if curve == "ECDH_P256" else 48
+            draws = [(b"\xff" * (nb - 1) + bytes([0xFF - j])).hex() for j in range(6)]
+            out.append({"seed": 950 + k, "clock_ft": 133_000_000_000_000_000 + k, "root_keys": [[k % 5, offline.HASHES[k % 4], curve]], "caller_sids": [],
+                        "ctx": {"kind": "stub", "legs": 2, "sig": 16}, "kind": "large-scalar-draws",
+                        "entropy_script": [{"source": "urandom", "n": nb, "hex": h_} for h_ in draws],
+                        "ops": [{"op": "protect", "fl": ("sync", "async")[k % 2], "sid": offline.SID_B, "rk": None, "net": "online", "data": 9, "same_data": True} for _ in range(4)]})
         # very long runs of the key / nonce generator itself (a nonce with few fresh bits repeats within them)
         for k in range(2 if tier == "quick" else 16):
             out.append({"kind": "long-run", "n": 300_000 if tier == "quick" else 1_000_000, "seed": 77 + k, "ops": [], "root_keys": [[0, "SHA256", "DH"]],
@@ -337,6 +347,8 @@ class C19(common.Check):
             probes["task_chain_histories"] = 1
         if case.get("kind") == "big-plaintext":
             probes["plaintext_over_1MiB"] = 1
+        if case.get("kind") == "large-scalar-draws":
+            probes["scalar_draws_above_group_order"] = 1
         if case.get("kind") == "pub-reply-odd-length-field":
             probes["odd_length_field_histories"] = 1
         if case.get("kind") == "threads":
